@@ -972,6 +972,118 @@ def r11(ctx, rep):
     rep.check(n >= 4, "sites", f"expected the arms of Flattener::fold_expr over TransformCall and its kinds, found {n} expression-carrying parts")
 
 
+def r12(ctx, rep):
+    """`g(p)` unwraps a fallible conversion of its own parameter (`p.try_map(as_int).unwrap()`): a stated belief that the caller has
+    validated `p`. The belief is checked: every caller makes the same conversion of the same value *fallibly* (`..?`) before it calls g.
+    When a caller stops doing so (the validation turned into a default), the unwrap is reachable with the unvalidated value."""
+    import guards
+    rep.rule("C12.R12", "an unwrapped fallible conversion of a parameter is preceded, in every caller, by the same conversion with error propagation", floor=1)
+    syn = ctx.syn
+    n_sites = 0
+    for g in syn.fns:
+        if g["crate"] not in ("prqlc", "prqlc_parser") or "body" not in g or g.get("in_test"):
+            continue
+        params = []
+        for i, p_ in enumerate(g.get("params", [])):
+            for x in walk(p_ if isinstance(p_, dict) else {}):
+                if x.get("k") == "p_ident" and x["n"] != "self":
+                    params.append((x["n"], i))
+        pn = dict(params)
+        for x in walk(g["body"]):
+            if not (x.get("k") == "mcall" and x["m"] in ("unwrap", "expect")):
+                continue
+            root, convs = x["r"], []
+            while root.get("k") in ("mcall", "field", "try", "paren", "ref"):
+                if root.get("k") == "mcall":
+                    convs.append((root["m"], [show(a_) for a_ in root["a"]]))
+                    root = root["r"]
+                else:
+                    root = root["e"]
+            conv = [c for c in convs if c[0].startswith("try_") or c[0] == "parse"]
+            if not (root.get("k") == "path" and root["p"] in pn and conv):
+                continue
+            n_sites += 1
+            cname, cargs = conv[-1]
+            has_self = any(isinstance(p_, dict) and (p_.get("name") == "self" or p_.get("k") == "self") for p_ in g.get("params", []))
+            idx = pn[root["p"]]
+            callers = []
+            for f in syn.fns:
+                if f["crate"] != g["crate"] or "body" not in f or f is g:
+                    continue
+                for c in walk(f["body"]):
+                    if c.get("k") == "call" and c["f"].get("k") == "path" and last_seg(c["f"]["p"]) == g["name"] and len(c["a"]) > idx - (1 if has_self else 0):
+                        callers.append((f, c))
+            key = f"validated-by-caller:{g['name']}:{root['p']}.{cname}"
+            if not callers:
+                rep.bad(key, f"{g['name']} unwraps `{show(x['r'], maxdepth=6)}` of its parameter `{root['p']}` and no caller was found that could have validated it", file=g["file"], line=x["l"], fn=g["path"])
+                continue
+            for f, c in callers:
+                arg = c["a"][idx - (1 if has_self else 0)]
+                v = arg
+                while v.get("k") in ("mcall", "ref", "paren", "field") and not (v.get("k") == "mcall" and v["m"] not in ("clone", "to_owned", "as_ref")):
+                    v = v["r"] if v.get("k") == "mcall" else v["e"]
+                vname = show(v)
+                ok = False
+                for t in walk(f["body"]):
+                    if t.get("k") != "try" or t["l"] > c["l"]:
+                        continue
+                    for m in walk(t["e"]):
+                        if m.get("k") == "mcall" and m["m"] == cname and [show(a_) for a_ in m["a"]] == cargs:
+                            r2 = m["r"]
+                            while r2.get("k") in ("mcall", "ref", "paren") and (r2.get("k") != "mcall" or r2["m"] in ("clone", "to_owned", "as_ref")):
+                                r2 = r2["r"] if r2.get("k") == "mcall" else r2["e"]
+                            if show(r2) == vname:
+                                ok = True
+                rep.check(ok, key + ":" + f["name"], f"{g['name']} unwraps `{show(x['r'], maxdepth=6)}` on the belief that its caller has validated `{root['p']}`; {f['name']} calls it with `{show(arg)}` "
+                          f"without a preceding `{vname}...{cname}({', '.join(cargs)})..?`: a value that does not convert reaches the unwrap and panics", file=f["file"], line=c["l"], fn=f["path"])
+    rep.check(n_sites >= 1, "sites", f"expected the take range conversion in create_filter_by_row_number, found {n_sites} unwrapped conversions of parameters")
+
+
+def r13(ctx, rep):
+    """A `TableDecl` of the resolver is read with `ty.as_ref().unwrap().as_relation().unwrap()` (lineage_of_table_decl, lower_table_decl): the
+    readers rely on every table declaration having a relation type. That is decided where declarations are made: each construction gives
+    `Some(Ty::relation(..))`, or stands under a test that the type it is given `is_relation()`."""
+    import guards
+    rep.rule("C12.R13", "every resolver TableDecl is constructed with a relation type (built with Ty::relation, or under an `is_relation()` test of the type it gets)", floor=4)
+    syn = ctx.syn
+    n_sites = 0
+    for f in syn.fns:
+        if f["crate"] != "prqlc" or "/semantic/" not in f["file"] or "body" not in f:
+            continue
+        par = None
+        inits = {}
+        for n in walk(f["body"]):
+            if n.get("k") == "local" and n.get("init") is not None and n["pat"].get("k") == "p_ident":
+                inits.setdefault(n["pat"]["n"], []).append(n["init"])
+        for n in walk(f["body"]):
+            if not (n.get("k") == "struct" and last_seg(n["p"]) == "TableDecl"):
+                continue
+            d = dict(n["f"])
+            if set(d) != {"ty", "expr"}:
+                continue
+            n_sites += 1
+            tyv = d["ty"]
+            cands = [tyv] + (inits.get(tyv["p"], []) if tyv.get("k") == "path" else [])
+            built = any(re.fullmatch(r"Some\(Ty::relation\(.*\)\)", show(c, maxdepth=10), re.S) for c in cands)
+            guarded = False
+            if not built:
+                par = par or guards.parents(f["body"])
+                cur = n
+                tname = show(tyv)
+                while id(cur) in par:
+                    p_ = par[id(cur)]
+                    if p_.get("k") == "if" and p_.get("t") is not None and any(x is cur for x in walk(p_["t"])):
+                        for cj in guards.conjuncts(p_["c"]):
+                            t = show(cj, maxdepth=10)
+                            if t.startswith(tname) and "is_relation()" in t and not t.startswith("!") and "||" not in t:
+                                guarded = True
+                    cur = p_
+            rep.check(built or guarded, f"table-decl-type:{f['name']}:{n_sites}", f"{f['name']} declares a table whose type is `{show(tyv, maxdepth=6)}`: neither built with `Ty::relation(..)` nor under a test "
+                      f"`{show(tyv)}..is_relation()`; readers of table declarations unwrap `ty.as_relation()` (lineage_of_table_decl, lower_table_decl), so a reference to this declaration panics",
+                      file=f["file"], line=n["l"], fn=f["path"])
+    rep.check(n_sites >= 4, "sites", f"expected the table declarations of stmt.rs (2), inference.rs and module.rs, found {n_sites}")
+
+
 def run(ctx, rep):
-    for r in (r1, r2, r3, r4, r5, r6, r7, r8, r9, r10, r11):
+    for r in (r1, r2, r3, r4, r5, r6, r7, r8, r9, r10, r11, r12, r13):
         rep.guard(r, ctx)
